@@ -469,6 +469,38 @@ func runC02(c *fw.Ctx) {
 						Replay: map[string]any{"mode": mode, "seed": seed, "height": height, "id": fmt.Sprint(id)}})
 				}
 			}
+			// a resolved v1 contract pays out ONE family of outputs: the valid ones (storage proof) or the missed ones
+			// (expiry) — a contract both proven and listed as expiring in the same block must not be resolved twice
+			created := map[types.SiacoinOutputID]bool{}
+			for _, d := range au.SiacoinElementDiffs() {
+				if d.Created {
+					created[d.SiacoinElement.ID] = true
+				}
+			}
+			for _, d := range au.FileContractElementDiffs() {
+				if !d.Resolved {
+					continue
+				}
+				fc := d.FileContractElement.FileContract
+				if d.Revision != nil {
+					fc = *d.Revision
+				}
+				nv, nm := 0, 0
+				for i := range fc.ValidProofOutputs {
+					if created[d.FileContractElement.ID.ValidOutputID(i)] {
+						nv++
+					}
+				}
+				for i := range fc.MissedProofOutputs {
+					if created[d.FileContractElement.ID.MissedOutputID(i)] {
+						nm++
+					}
+				}
+				if nv > 0 && nm > 0 {
+					res.Violate(fw.Violation{Key: "c02-double-resolution:v1", What: fmt.Sprintf("contract %v is resolved twice in the block at height %d: %d valid-proof outputs AND %d missed-proof outputs were created", d.FileContractElement.ID, height, nv, nm),
+						Replay: map[string]any{"mode": mode, "seed": seed, "height": height, "id": fmt.Sprint(d.FileContractElement.ID)}})
+				}
+			}
 			for id := range reported {
 				if _, ok := used[id]; !ok {
 					res.Violate(fw.Violation{Key: "c02-reported-not-consumed", What: fmt.Sprintf("the apply update reports element %v spent/resolved but no transaction of the block consumes it", id),
